@@ -7,19 +7,11 @@ text writer emits, so the binary law follows from the text law of dates.
 namespace Props.C09
 open Cfi Cfi.Dbl Cfi.Bin Cfi.Text Cfi.Date Spec.C09
 
-theorem natDigits_ascii (n : Nat) : ∀ c ∈ PyInt.natDigits n, c.toNat < 128 := by
-  intro c hc
-  have := (Cfi.isDigit_iff c).1 (Cfi.natDigits_isDigit n c hc)
-  omega
-
-theorem pad_ascii (w n : Nat) : ∀ c ∈ pad w n, c.toNat < 128 := by
-  intro c hc
-  have := (Cfi.isDigit_iff c).1 (Cfi.Date.pad_digits w n c hc)
-  omega
-
-/-- the text `strftime` produces for an ASCII format is ASCII -/
-theorem strftime_ascii : ∀ (n : Nat) (fmt : List Char) (t : DT) (p : List Char),
-    (∀ c ∈ fmt, c.toNat < 128) → strftime n fmt t = some p → ∀ c ∈ p, c.toNat < 128 := by
+/-- **the characters `strftime` emits** are digits and characters of the format: every property
+of characters that digits and the format's characters have, the output has -/
+theorem strftime_chars (P : Char → Prop) (hdig : ∀ c : Char, c.isDigit = true → P c) :
+    ∀ (n : Nat) (fmt : List Char) (t : DT) (p : List Char),
+    (∀ c ∈ fmt, P c) → strftime n fmt t = some p → ∀ c ∈ p, P c := by
   intro n
   induction n with
   | zero => intro fmt t p _ h; simp [strftime] at h
@@ -35,9 +27,9 @@ theorem strftime_ascii : ∀ (n : Nat) (fmt : List Char) (t : DT) (p : List Char
         cases r with
         | nil => simp [strftime] at h
         | cons d r' =>
-          have hr : ∀ x ∈ r', x.toNat < 128 := fun x hx => hf x (by simp [hx])
-          have key : ∀ piece : List Char, (∀ x ∈ piece, x.toNat < 128) →
-              (strftime n r' t).map (piece ++ ·) = some p → ∀ x ∈ p, x.toNat < 128 := by
+          have hr : ∀ x ∈ r', P x := fun x hx => hf x (by simp [hx])
+          have key : ∀ piece : List Char, (∀ x ∈ piece, P x) →
+              (strftime n r' t).map (piece ++ ·) = some p → ∀ x ∈ p, P x := by
             intro piece hp he x hx
             cases hq : strftime n r' t with
             | none => rw [hq] at he; simp at he
@@ -51,14 +43,13 @@ theorem strftime_ascii : ∀ (n : Nat) (fmt : List Char) (t : DT) (p : List Char
           by_cases hd : d = '%'
           · subst hd
             rw [Cfi.Date.strftime_pct] at h
-            exact key ['%'] (by intro x hx; simp at hx; subst hx; decide) h
+            exact key ['%'] (by intro x hx; simp at hx; subst hx; exact hf '%' (by simp)) h
           · cases hdp : Cfi.Date.dirPiece d t with
             | some q0 =>
               rw [Cfi.Date.strftime_dir t n d q0 r' hdp] at h
               refine key q0 ?_ h
               intro x hx
-              have := (Cfi.isDigit_iff x).1 ((Cfi.Date.dirPiece_digits d t q0 hdp).2 x hx)
-              omega
+              exact hdig x ((Cfi.Date.dirPiece_digits d t q0 hdp).2 x hx)
             | none =>
               exfalso
               have h1 : d ≠ 'Y' := by intro hh; subst hh; simp [Cfi.Date.dirPiece] at hdp
@@ -83,6 +74,12 @@ theorem strftime_ascii : ∀ (n : Nat) (fmt : List Char) (t : DT) (p : List Char
           rcases hx with rfl | hx
           · exact hf x (by simp)
           · exact ih r t q (fun y hy => hf y (by simp [hy])) hq x hx
+
+/-- the text `strftime` produces for an ASCII format is ASCII -/
+theorem strftime_ascii (n : Nat) (fmt : List Char) (t : DT) (p : List Char)
+    (hf : ∀ c ∈ fmt, c.toNat < 128) (h : strftime n fmt t = some p) : ∀ c ∈ p, c.toNat < 128 :=
+  strftime_chars (fun c => c.toNat < 128)
+    (fun c hc => by have := (Cfi.isDigit_iff c).1 hc; omega) n fmt t p hf h
 
 /-- on ASCII text the binary date parser is the text date parser -/
 theorem parseBin_date_ascii (fmts : List (List Char)) (size : Nat) (s : List Char) (h : ∀ c ∈ s, c.toNat < 128) :
